@@ -1,6 +1,7 @@
 import JominiModel.Proofs.TextSkip
 import JominiModel.Proofs.TextReaderFaithful
 import JominiModel.Proofs.TextReaderUnfit
+import JominiModel.Proofs.TextReaderFull
 /-
 C09 (text), document level: on the rendering of a document under a valid reader-safe layout, `skip_container` called
 right after the `Open` token of a container leaves the reader exactly behind that container's matching close: the tokens
@@ -257,27 +258,45 @@ end Jomini.TextReader
 namespace Jomini.TextReader
 open Jomini Jomini.TextReader.Spec
 
-/-! ### readers that can neither overflow nor fail: a slice reader, or a buffer larger than the input with a fault-free
-schedule -/
+/-! ### readers that can neither overflow nor fail during the next `n` calls: a slice reader, or a buffer of at least three
+bytes that holds what those calls need (`needFrom n`), with a fault-free schedule -/
 
-def Good (N : Nat) (r : Reader) : Prop := (r.cap = 0 ∨ N < r.cap) ∧ NoFaults r.src.sched
+def Good (n : Nat) (r : Reader) (pos : Nat) (bom : Bom) (d : Bytes) : Prop :=
+  (r.cap = 0 ∨ (3 ≤ r.cap ∧ needFrom n pos bom d ≤ r.cap)) ∧ NoFaults r.src.sched
 
-theorem Good.outQ {N : Nat} {r : Reader} {pos : Nat} {bom : Bom} {d : Bytes} {fuel : Nat} (hg : Good N r) (hd : d.length ≤ N)
+theorem Good.outQ {n : Nat} {r : Reader} {pos : Nat} {bom : Bom} {d : Bytes} {fuel : Nat} (hg : Good (n + 1) r pos bom d)
     (h : OutQ (nextOpt fuel r) r.cap pos bom d) : OutQOk (nextOpt fuel r) r.cap pos bom d := by
-  rcases h with ⟨hne, r', ⟨_, hle, hwd, _⟩ | hio⟩ | h
-  · exfalso; rcases hg.1 with h0 | h1
+  rcases h with ⟨hne, r', ⟨_, hle, hwd, hq⟩ | hio⟩ | h
+  · exfalso; rcases hg.1 with h0 | ⟨_, h1⟩
     · exact hne h0
-    · omega
+    · have := Carry_lt_callNeed hq
+      simp only [needFrom] at h1
+      have := Nat.le_max_left (callNeed (pos == 0) bom d) (match specStep (pos == 0) bom d with
+        | some (.tok adv _ b') => needFrom n (pos + adv) b' (d.drop adv)
+        | _ => 0)
+      omega
   · exfalso
     have := nextOpt_inv NoFaults_closed fuel r hg.2
     rw [hio] at this
     exact this.2.2 rfl
   · exact h
 
+/-- after a token, the remaining calls still fit -/
+theorem Good.step {n : Nat} {r r' : Reader} {pos adv : Nat} {bom b' : Bom} {d : Bytes} {t : Token}
+    (hg : Good (n + 1) r pos bom d) (hsp : specStep (pos == 0) bom d = some (.tok adv t b')) (hc : r'.cap = r.cap)
+    (hnf : NoFaults r'.src.sched) : Good n r' (pos + adv) b' (d.drop adv) := by
+  refine ⟨?_, hnf⟩
+  rw [hc]
+  rcases hg.1 with h0 | ⟨h3, h1⟩
+  · exact Or.inl h0
+  · right
+    simp only [needFrom, hsp] at h1
+    exact ⟨h3, Nat.le_trans (Nat.le_max_right _ _) h1⟩
+
 /-- one `next` call in front of a rendered item -/
-theorem next_item {N : Nat} {gt pre g : Bytes} {lx : Lexeme} {rest : List (Bytes × Lexeme)} {r : Reader} {pos : Nat}
+theorem next_item {N m : Nat} {gt pre g : Bytes} {lx : Lexeme} {rest : List (Bytes × Lexeme)} {r : Reader} {pos : Nat}
     {bom bom_s : Bom} {f : Nat}
-    (hrel : RelQ r pos bom (pre ++ renderLex ((g, lx) :: rest) gt)) (hgood : Good N r)
+    (hrel : RelQ r pos bom (pre ++ renderLex ((g, lx) :: rest) gt)) (hgood : Good (m + 1) r pos bom (pre ++ renderLex ((g, lx) :: rest) gt))
     (hN : (pre ++ renderLex ((g, lx) :: rest) gt).length ≤ N)
     (hs : Skips (pos == 0) pre 0 bom bom_s) (hv : ValidLex ((g, lx) :: rest) gt)
     (hclash : pos = 0 → pre = [] → bom_s = .unknown → ¬∃ r', renderLex ((g, lx) :: rest) gt = 0xef :: 0xbb :: 0xbf :: r')
@@ -285,7 +304,7 @@ theorem next_item {N : Nat} {gt pre g : Bytes} {lx : Lexeme} {rest : List (Bytes
     ∃ r' b', next f r = .ok r' (some lx.tok) ∧
       RelQ r' (pos + (pre.length + g.length + lx.text.length)) b' (renderLex rest gt) ∧
       ((∀ b, lx.tok ≠ .unquoted b) → Rel r' (pos + (pre.length + g.length + lx.text.length)) b' (renderLex rest gt)) ∧
-      Good N r' ∧ r'.cap = r.cap := by
+      Good m r' (pos + (pre.length + g.length + lx.text.length)) b' (renderLex rest gt) ∧ r'.cap = r.cap := by
   simp only [ValidLex] at hv
   obtain ⟨hg, hlv, _⟩ := hv
   have hall := hs.append (hg.skips (pos == 0) (0 + pre.length) bom_s)
@@ -297,7 +316,7 @@ theorem next_item {N : Nat} {gt pre g : Bytes} {lx : Lexeme} {rest : List (Bytes
     refine hclash (by simpa using hp) hpre hb ⟨r', ?_⟩
     subst hg0; simpa [renderLex] using hr')
   rw [← hd] at hsp
-  have o := Good.outQ hgood hN (nextOpt_specQ r pos bom _ f hrel (by omega))
+  have o := Good.outQ hgood (nextOpt_specQ r pos bom _ f hrel (by omega))
   have o' := o
   unfold OutQOk at o
   rw [hsp] at o
@@ -308,22 +327,25 @@ theorem next_item {N : Nat} {gt pre g : Bytes} {lx : Lexeme} {rest : List (Bytes
     rw [this, List.drop_left]
   have hlen : (pre ++ g).length + lx.text.length = pre.length + g.length + lx.text.length := by simp
   rw [hdrop, hlen] at hr1
-  refine ⟨r', b', e1, hr1, ?_, ⟨by rw [hc1]; exact hgood.1, ?_⟩, hc1⟩
-  · intro hnu
-    have := nextOpt_relQ_nonunq hrel (by omega) e1 hnu hsp
-    rw [hdrop, hlen] at this
-    exact this.2.1
-  · have := nextOpt_inv NoFaults_closed f r hgood.2
+  have hnf' : NoFaults r'.src.sched := by
+    have := nextOpt_inv NoFaults_closed f r hgood.2
     rw [e1] at this
     exact this
+  have hstep := Good.step hgood hsp hc1 hnf'
+  rw [hdrop, hlen] at hstep
+  refine ⟨r', b', e1, hr1, ?_, hstep, hc1⟩
+  intro hnu
+  have := nextOpt_relQ_nonunq hrel (by omega) e1 hnu hsp
+  rw [hdrop, hlen] at this
+  exact this.2.1
 
 /-- one `next` call at the end of the rendering -/
-theorem next_end {N : Nat} {gt pre : Bytes} {r : Reader} {pos : Nat} {bom bom_s : Bom} {f : Nat}
-    (hrel : RelQ r pos bom (pre ++ gt)) (hgood : Good N r) (hN : (pre ++ gt).length ≤ N)
+theorem next_end {N m : Nat} {gt pre : Bytes} {r : Reader} {pos : Nat} {bom bom_s : Bom} {f : Nat}
+    (hrel : RelQ r pos bom (pre ++ gt)) (hgood : Good (m + 1) r pos bom (pre ++ gt)) (hN : (pre ++ gt).length ≤ N)
     (hs : Skips (pos == 0) pre 0 bom bom_s) (hg : EndGap gt) (hf : 2 * N + 4 ≤ f) :
     ∃ r', next f r = .ok r' none ∧ r'.position = pos + (pre ++ gt).length := by
   obtain ⟨b', hsp⟩ := specStep_end hs hg
-  have o := Good.outQ hgood hN (nextOpt_specQ r pos bom _ f hrel (by omega))
+  have o := Good.outQ hgood (nextOpt_specQ r pos bom _ f hrel (by omega))
   unfold OutQOk at o
   rw [hsp] at o
   obtain ⟨r', e1, hr1, _⟩ := o
@@ -332,7 +354,8 @@ theorem next_end {N : Nat} {gt pre : Bytes} {r : Reader} {pos : Nat} {bom bom_s 
 /-- `lexAll_faithful` for every reader that can neither overflow nor fail -/
 theorem lexAll_faithful_good (N : Nat) (gt : Bytes) : ∀ (items : List (Bytes × Lexeme)) (pre : Bytes) (r : Reader) (pos : Nat)
     (bom bom_s : Bom) (f n : Nat) (acc : List Token),
-    RelQ r pos bom (pre ++ renderLex items gt) → Good N r → (pre ++ renderLex items gt).length ≤ N →
+    RelQ r pos bom (pre ++ renderLex items gt) → Good (items.length + 1) r pos bom (pre ++ renderLex items gt) →
+    (pre ++ renderLex items gt).length ≤ N →
     Skips (pos == 0) pre 0 bom bom_s → ValidLex items gt →
     (pos = 0 → pre = [] → bom_s = .unknown → ¬∃ r', renderLex items gt = 0xef :: 0xbb :: 0xbf :: r') →
     items.length + 1 ≤ n → 2 * N + 4 ≤ f →
@@ -372,36 +395,42 @@ def readToks (fuel : Nat) : Nat → Reader → Option (List Token × Reader)
     | .ok r' (some t) => (readToks fuel k r').map (fun p => (t :: p.1, p.2))
     | _ => none
 
-theorem readToks_faithful (N : Nat) (gt : Bytes) (items2 : List (Bytes × Lexeme)) : ∀ (items1 : List (Bytes × Lexeme))
+theorem readToks_faithful (N m : Nat) (gt : Bytes) (items2 : List (Bytes × Lexeme)) : ∀ (items1 : List (Bytes × Lexeme))
     (pre : Bytes) (r : Reader) (pos : Nat) (bom bom_s : Bom) (f : Nat),
-    RelQ r pos bom (pre ++ renderLex (items1 ++ items2) gt) → Good N r → (pre ++ renderLex (items1 ++ items2) gt).length ≤ N →
+    RelQ r pos bom (pre ++ renderLex (items1 ++ items2) gt) →
+    Good (items1.length + m) r pos bom (pre ++ renderLex (items1 ++ items2) gt) →
+    (pre ++ renderLex (items1 ++ items2) gt).length ≤ N →
     Skips (pos == 0) pre 0 bom bom_s → ValidLex (items1 ++ items2) gt →
     (pos = 0 → pre = [] → bom_s = .unknown → ¬∃ r', renderLex (items1 ++ items2) gt = 0xef :: 0xbb :: 0xbf :: r') →
     2 * N + 4 ≤ f →
     ∃ r' pos' b' pre' bs', readToks f items1.length r = some (items1.map (fun x => x.2.tok), r') ∧
       RelQ r' pos' b' (pre' ++ renderLex items2 gt) ∧ Skips (pos' == 0) pre' 0 b' bs' ∧
       (pos' = 0 → pre' = [] → bs' = .unknown → ¬∃ r'', renderLex items2 gt = 0xef :: 0xbb :: 0xbf :: r'') ∧
-      Good N r' ∧ (pre' ++ renderLex items2 gt).length ≤ N ∧
-      pos' + (pre' ++ renderLex items2 gt).length = pos + (pre ++ renderLex (items1 ++ items2) gt).length := by
+      Good m r' pos' b' (pre' ++ renderLex items2 gt) ∧ (pre' ++ renderLex items2 gt).length ≤ N ∧
+      pos' + (pre' ++ renderLex items2 gt).length = pos + (pre ++ renderLex (items1 ++ items2) gt).length ∧
+      r'.cap = r.cap := by
   intro items1
   induction items1 with
   | nil =>
     intro pre r pos bom bom_s f hrel hgood hN hs _ hclash _
-    exact ⟨r, pos, bom, pre, bom_s, rfl, by simpa using hrel, hs, by simpa using hclash, hgood, by simpa using hN, by simp⟩
+    exact ⟨r, pos, bom, pre, bom_s, rfl, by simpa using hrel, hs, by simpa using hclash, by simpa using hgood, by simpa using hN, by simp, rfl⟩
   | cons it rest ih =>
     obtain ⟨g, lx⟩ := it
     intro pre r pos bom bom_s f hrel hgood hN hs hv hclash hf
-    simp only [List.cons_append] at hrel hN hv hclash
-    obtain ⟨r1, b1, e1, hr1, _, hg1, _⟩ := next_item hrel hgood hN hs hv hclash hf
+    simp only [List.cons_append] at hrel hN hv hclash hgood
+    have hcnt : (rest.length + 1) + m = (rest.length + m) + 1 := by omega
+    simp only [List.length_cons] at hgood
+    rw [hcnt] at hgood
+    obtain ⟨r1, b1, e1, hr1, _, hg1, hcap1⟩ := next_item hrel hgood hN hs hv hclash hf
     have htl : 0 < lx.text.length := lexeme_text_pos (by simp only [ValidLex] at hv; exact hv.2.1)
     have hlenle : (renderLex (rest ++ items2) gt).length + (pre.length + g.length + lx.text.length) =
         (pre ++ renderLex ((g, lx) :: (rest ++ items2)) gt).length := by
       simp [renderLex]; omega
-    obtain ⟨r', pos', b', pre', bs', h1, h2, h3, h4, h5, h6, h7⟩ :=
+    obtain ⟨r', pos', b', pre', bs', h1, h2, h3, h4, h5, h6, h7, h8⟩ :=
       ih [] r1 (pos + (pre.length + g.length + lx.text.length)) b1 b1 f
-        (by simpa using hr1) hg1 (by simp only [List.nil_append]; omega) (.nil _ _)
+        (by simpa using hr1) (by simpa using hg1) (by simp only [List.nil_append]; omega) (.nil _ _)
         (by simp only [ValidLex] at hv; exact hv.2.2) (fun h => absurd h (by omega)) hf
-    refine ⟨r', pos', b', pre', bs', ?_, h2, h3, h4, h5, h6, ?_⟩
+    refine ⟨r', pos', b', pre', bs', ?_, h2, h3, h4, h5, h6, ?_, by rw [h8, hcap1]⟩
     · simp only [List.length_cons, readToks, e1, h1, List.map_cons, Option.map_some]
     · rw [h7]; simp only [List.nil_append, List.cons_append]; omega
 
@@ -438,10 +467,12 @@ theorem skipAt_items (b : Bool) (pre more : List (Bytes × Lexeme)) (g gc gt : B
     let data := bomBytes b ++ renderLex items gt
     ValidLex items gt → (∀ it ∈ itemsM ms, skipSafeTok it.2.tok = true) →
     (b = false → ¬∃ r', renderLex items gt = 0xef :: 0xbb :: 0xbf :: r') →
-    Rel r0 0 .unknown data → Good data.length r0 → 2 * data.length + 4 ≤ f → more.length + 1 ≤ n →
+    Rel r0 0 .unknown data → Good (pre.length + 1) r0 0 .unknown data →
+    (r0.cap = 0 ∨ needFrom (more.length + 1) (data.length - (renderLex more gt).length) .notPresent (renderLex more gt) ≤ r0.cap) →
+    2 * data.length + 4 ≤ f → more.length + 1 ≤ n →
     ∃ run, skipAt f n pre.length r0 = some (pre.map (fun x => x.2.tok), run) ∧
       run.toks = more.map (fun x => x.2.tok) ∧ run.out = .end_ ∧ run.final.position = data.length := by
-  intro items data hv hsafe hclash hrel hgood hf hn
+  intro items data hv hsafe hclash hrel hgood hafter hf hn
   -- the BOM, if any, is a skipped prefix
   have hs0 : ∃ bs, Skips ((0 : Nat) == 0) (bomBytes b) 0 .unknown bs ∧ (b = false → bs = .unknown) := by
     cases b with
@@ -454,12 +485,12 @@ theorem skipAt_items (b : Bool) (pre more : List (Bytes × Lexeme)) (g gc gt : B
     | true => simp [bomBytes] at hb0
     | false => exact hclash rfl
   -- 1. the tokens in front of the container
-  obtain ⟨r1, pos1, b1, pre1, bs1, hread, hr1, hs1, hcl1, hg1, hN1, hpos1⟩ :=
-    readToks_faithful data.length gt ((g, Lexeme.open_) :: (itemsM ms ++ (gc, Lexeme.close) :: more)) pre (bomBytes b) r0 0 .unknown bs f
+  obtain ⟨r1, pos1, b1, pre1, bs1, hread, hr1, hs1, hcl1, hg1, hN1, hpos1, hcap1⟩ :=
+    readToks_faithful data.length 1 gt ((g, Lexeme.open_) :: (itemsM ms ++ (gc, Lexeme.close) :: more)) pre (bomBytes b) r0 0 .unknown bs f
       (Or.inl hrel) hgood (Nat.le_refl _) hs0 hv hclash0 hf
   -- 2. the Open token
   have hv1 : ValidLex ((g, Lexeme.open_) :: (itemsM ms ++ (gc, Lexeme.close) :: more)) gt := ValidLex_suffix _ _ _ hv
-  obtain ⟨r2, b2, e2, _, hrel2, hg2, hc2⟩ := next_item hr1 hg1 hN1 hs1 hv1 hcl1 hf
+  obtain ⟨r2, b2, e2, _, hrel2, hg2, hc2⟩ := next_item (m := 0) hr1 hg1 hN1 hs1 hv1 hcl1 hf
   have hrel2 := hrel2 (by intro bb; simp [Lexeme.tok])
   simp only [Lexeme.text, List.length_singleton] at hrel2
   have hv2 : ValidLex (itemsM ms ++ (gc, Lexeme.close) :: more) gt := by simp only [ValidLex] at hv1; exact hv1.2.2
@@ -492,7 +523,7 @@ theorem skipAt_items (b : Bool) (pre more : List (Bytes × Lexeme)) (g gc gt : B
       have := skipLoop_inv NoFaults_closed f r2 .none 1 0 hg2.2
       rw [hio] at this
       exact this.2.2 rfl
-    · exfalso; rcases hg2.1 with h0 | h0
+    · exfalso; rcases hg2.1 with h0 | ⟨h0, _⟩
       · exact h1 h0
       · omega
     · unfold SkipOut at hok
@@ -506,12 +537,32 @@ theorem skipAt_items (b : Bool) (pre more : List (Bytes × Lexeme)) (g gc gt : B
     simp only [renderLex, Lexeme.text]
     rw [show gc.length + 1 = (gc ++ [125]).length by simp, ← List.append_assoc, List.drop_left]
   rw [hdrop3] at hrel3
-  have hg3 : Good data.length r3 := by
-    refine ⟨by rw [hc3]; exact hg2.1, ?_⟩
-    have := skipLoop_inv NoFaults_closed f r2 .none 1 0 hg2.2
-    unfold skipContainer at e3
-    rw [e3] at this
-    exact this
+  have hdl0 : data.length = (bomBytes b ++ renderLex (pre ++ (g, Lexeme.open_) :: (itemsM ms ++ (gc, Lexeme.close) :: more)) gt).length := rfl
+  have hpos3 : pos1 + (pre1.length + g.length + 1) + ((renderM ms).length + gc.length + 1) =
+      data.length - (renderLex more gt).length := by
+    have := hpos1
+    rw [hdl0]
+    simp only [List.length_append, Nat.zero_add] at this ⊢
+    rw [hD1, hD2] at this
+    omega
+  have hg3 : Good (more.length + 1) r3 (pos1 + (pre1.length + g.length + 1) + ((renderM ms).length + gc.length + 1)) b2
+      ([] ++ renderLex more gt) := by
+    have hnf3 : NoFaults r3.src.sched := by
+      have := skipLoop_inv NoFaults_closed f r2 .none 1 0 hg2.2
+      unfold skipContainer at e3
+      rw [e3] at this
+      exact this
+    have hcap30 : r3.cap = r0.cap := by rw [hc3, hc2, hcap1]
+    refine ⟨?_, hnf3⟩
+    rw [hcap30]
+    rcases hgood.1 with h0 | ⟨h3, _⟩
+    · exact Or.inl h0
+    · right
+      refine ⟨h3, ?_⟩
+      rcases hafter with h0 | ha
+      · omega
+      · rw [hpos3, List.nil_append, needFrom_bom _ _ b2 .notPresent _ (by omega)]
+        exact ha
   -- 4. the rest of the document
   have hfin := lexAll_faithful_good data.length gt more [] r3 _ b2 b2 f n [] (by simp only [List.nil_append]; exact Or.inl hrel3) hg3
     (by simp only [List.nil_append]; omega) (.nil _ _) (ValidLex_suffix _ _ _ hv2 |> fun h => by simp only [ValidLex] at h; exact h.2.2)
@@ -572,12 +623,29 @@ and a fault-free schedule (read sizes ≥ 1) -/
 def GoodStart (data : Bytes) (r0 : Reader) : Prop :=
   r0 = fromSlice data ∨ ∃ cap sched, data.length < cap ∧ WfSched sched ∧ NoFaults sched ∧ r0 = fromReader cap sched data
 
-theorem GoodStart.rel {data : Bytes} {r0 : Reader} (h : GoodStart data r0) : Rel r0 0 .unknown data ∧ Good data.length r0 := by
+theorem GoodStart.rel {data : Bytes} {r0 : Reader} (h : GoodStart data r0) :
+    Rel r0 0 .unknown data ∧ (r0.cap = 0 ∨ data.length < r0.cap) ∧ NoFaults r0.src.sched := by
   rcases h with rfl | ⟨cap, sched, hc, hw, hnf, rfl⟩
   · exact ⟨⟨rfl, rfl, by simp [fromSlice], by intro x hx; simp [fromSlice] at hx, fun _ => rfl⟩,
       Or.inl rfl, by intro x hx; simp [fromSlice] at hx⟩
   · exact ⟨⟨rfl, rfl, by simp [fromReader], hw, by intro h; simp [fromReader] at h; omega⟩,
       Or.inr (by simpa [fromReader] using hc), by simpa [fromReader] using hnf⟩
+
+/-- a buffer larger than the remaining input holds whatever the calls need -/
+theorem Good.of_large {n : Nat} {r : Reader} {pos : Nat} {bom : Bom} {d : Bytes}
+    (h : r.cap = 0 ∨ (3 ≤ r.cap ∧ d.length < r.cap)) (hnf : NoFaults r.src.sched) : Good n r pos bom d := by
+  refine ⟨?_, hnf⟩
+  rcases h with h | ⟨h3, hl⟩
+  · exact Or.inl h
+  · right; exact ⟨h3, by have := needFrom_le n pos bom d; omega⟩
+
+/-- a rendering with a container holds its two braces and what follows the container -/
+theorem renderLex_container_length (pre mid more : List (Bytes × Lexeme)) (g gc gt : Bytes) :
+    (renderLex more gt).length + 2 ≤ (renderLex (pre ++ (g, Lexeme.open_) :: (mid ++ (gc, Lexeme.close) :: more)) gt).length := by
+  have h1 := renderLex_mid_length pre (g, Lexeme.open_) (mid ++ (gc, Lexeme.close) :: more) gt
+  have h2 := renderLex_mid_length mid (gc, Lexeme.close) more gt
+  simp only [Lexeme.text, List.length_singleton] at h1 h2
+  omega
 
 /-- **C09 (text): `skip_container` ends exactly behind the container's matching close.**  Let `doc` be a document (fields,
 array elements, containers nested to any depth) rendered under a valid reader-safe layout (`ValidM`; gaps of blanks and
@@ -605,8 +673,16 @@ theorem text_skip_matching_close (doc ms : DMembers) (g gc gt : Bytes) (b : Bool
     rw [hocc]; simp [itemsV]
   rw [← hr, hitems] at hr0 hf hclash ⊢
   rw [hitems] at hvl
-  obtain ⟨hrel, hgood⟩ := hr0.rel
-  exact skipAt_items b pre more g gc gt ms r0 f n hvl hsafe hclash hrel hgood hf hn
+  obtain ⟨hrel, hcapL, hnf⟩ := hr0.rel
+  have hlen := renderLex_container_length pre (itemsM ms) more g gc gt
+  simp only [List.length_append] at hcapL
+  refine skipAt_items b pre more g gc gt ms r0 f n hvl hsafe hclash hrel
+    (Good.of_large (by rcases hcapL with h | h; exact Or.inl h; right; simp only [List.length_append]; omega) hnf) ?_ hf hn
+  rcases hcapL with h | h
+  · exact Or.inl h
+  · right
+    have := needFrom_le (more.length + 1) ((bomBytes b ++ renderLex (pre ++ (g, Lexeme.open_) :: (itemsM ms ++ (gc, Lexeme.close) :: more)) gt).length - (renderLex more gt).length) .notPresent (renderLex more gt)
+    omega
 
 end Jomini.TextReader
 
@@ -648,10 +724,12 @@ theorem skipUAt_items (b : Bool) (pre more : List (Bytes × Lexeme)) (g0 hb g gc
     let data := bomBytes b ++ renderLex items gt
     ValidLex items gt → (∀ x ∈ g, isBlank x = true) → (∀ it ∈ itemsM ms, skipSafeTok it.2.tok = true) →
     (b = false → ¬∃ r', renderLex items gt = 0xef :: 0xbb :: 0xbf :: r') →
-    Rel r0 0 .unknown data → Good data.length r0 → 2 * data.length + 4 ≤ f → more.length + 1 ≤ n →
+    Rel r0 0 .unknown data → Good (pre.length + 1) r0 0 .unknown data →
+    (r0.cap = 0 ∨ needFrom (more.length + 1) (data.length - (renderLex more gt).length) .notPresent (renderLex more gt) ≤ r0.cap) →
+    2 * data.length + 4 ≤ f → more.length + 1 ≤ n →
     ∃ run, skipUAt f n pre.length r0 = some (pre.map (fun x => x.2.tok), .unquoted hb, run) ∧
       run.toks = more.map (fun x => x.2.tok) ∧ run.out = .end_ ∧ run.final.position = data.length := by
-  intro items data hv hblank hsafe hclash hrel hgood hf hn
+  intro items data hv hblank hsafe hclash hrel hgood hafter hf hn
   have hs0 : ∃ bs, Skips ((0 : Nat) == 0) (bomBytes b) 0 .unknown bs := by
     cases b with
     | true => exact ⟨.present, .bom rfl (.nil _ _)⟩
@@ -662,11 +740,11 @@ theorem skipUAt_items (b : Bool) (pre more : List (Bytes × Lexeme)) (g0 hb g gc
     cases b with
     | true => simp [bomBytes] at hb0
     | false => exact hclash rfl
-  obtain ⟨r1, pos1, b1, pre1, bs1, hread, hr1, hs1, hcl1, hg1, hN1, hpos1⟩ :=
-    readToks_faithful data.length gt ((g0, Lexeme.scalar false hb) :: (g, Lexeme.open_) :: (itemsM ms ++ (gc, Lexeme.close) :: more))
+  obtain ⟨r1, pos1, b1, pre1, bs1, hread, hr1, hs1, hcl1, hg1, hN1, hpos1, hcap1⟩ :=
+    readToks_faithful data.length 1 gt ((g0, Lexeme.scalar false hb) :: (g, Lexeme.open_) :: (itemsM ms ++ (gc, Lexeme.close) :: more))
       pre (bomBytes b) r0 0 .unknown bs f (Or.inl hrel) hgood (Nat.le_refl _) hs0 hv hclash0 hf
   have hv1 := ValidLex_suffix _ _ _ hv
-  obtain ⟨r2, b2, e2, hrelq2, _, hg2, hc2⟩ := next_item hr1 hg1 hN1 hs1 hv1 hcl1 hf
+  obtain ⟨r2, b2, e2, hrelq2, _, hg2, hc2⟩ := next_item (m := 0) hr1 hg1 hN1 hs1 hv1 hcl1 hf
   simp only [Lexeme.text] at hrelq2
   have hv2 : ValidLex ((g, Lexeme.open_) :: (itemsM ms ++ (gc, Lexeme.close) :: more)) gt := by
     simp only [ValidLex] at hv1; exact hv1.2.2
@@ -700,9 +778,9 @@ theorem skipUAt_items (b : Bool) (pre more : List (Bytes × Lexeme)) (g0 hb g gc
     show 2 ≤ (bomBytes b).length + (renderLex (pre ++ (g0, Lexeme.scalar false hb) :: (g, Lexeme.open_) :: (itemsM ms ++ (gc, Lexeme.close) :: more)) gt).length
     omega
   have hcap2 : r2.cap = 0 ∨ 3 ≤ r2.cap := by
-    rcases hg2.1 with h | h
+    rcases hg2.1 with h | ⟨h, _⟩
     · exact Or.inl h
-    · right; omega
+    · exact Or.inr h
   have hD1 : (pre1 ++ renderLex ((g0, Lexeme.scalar false hb) :: (g, Lexeme.open_) :: (itemsM ms ++ (gc, Lexeme.close) :: more)) gt).length =
       pre1.length + g0.length + hb.length + g.length + 1 + (renderLex (itemsM ms ++ (gc, Lexeme.close) :: more) gt).length := by
     simp [renderLex, Lexeme.text]; omega
@@ -724,11 +802,28 @@ theorem skipUAt_items (b : Bool) (pre more : List (Bytes × Lexeme)) (g0 hb g gc
     simp only [renderLex, Lexeme.text]
     rw [show gc.length + 1 = (gc ++ [125]).length by simp, ← List.append_assoc, List.drop_left]
   rw [hdrop3] at hrel3
-  have hg3 : Good data.length r3 := by
+  have hdl0 : data.length = (bomBytes b ++ renderLex (pre ++ (g0, Lexeme.scalar false hb) :: (g, Lexeme.open_) :: (itemsM ms ++ (gc, Lexeme.close) :: more)) gt).length := rfl
+  have hpos3 : pos' + g'.length + 1 + ((renderM ms).length + gc.length + 1) = data.length - (renderLex more gt).length := by
+    have := hpos1
+    rw [hdl0]
+    simp only [List.length_append, Nat.zero_add] at this hD1 ⊢
+    rw [hD1, hD2] at this
+    omega
+  have hg3 : Good (more.length + 1) r3 (pos' + g'.length + 1 + ((renderM ms).length + gc.length + 1)) b2 ([] ++ renderLex more gt) := by
     have h1 := skipUnquotedValue_inv NoFaults_closed f r2 hg2.2
     have h2 := skipUnquotedValue_inv (Cap_closed r2.cap) f r2 rfl
     rw [e3] at h1 h2
-    exact ⟨by rw [show r3.cap = r2.cap from h2]; exact hg2.1, h1⟩
+    have hcap30 : r3.cap = r0.cap := by rw [show r3.cap = r2.cap from h2, hc2, hcap1]
+    refine ⟨?_, h1⟩
+    rw [hcap30]
+    rcases hgood.1 with h0 | ⟨h3, _⟩
+    · exact Or.inl h0
+    · right
+      refine ⟨h3, ?_⟩
+      rcases hafter with h0 | ha
+      · omega
+      · rw [hpos3, List.nil_append, needFrom_bom _ _ b2 .notPresent _ (by omega)]
+        exact ha
   have hfin := lexAll_faithful_good data.length gt more [] r3 _ b2 b2 f n [] (by simp only [List.nil_append]; exact Or.inl hrel3) hg3
     (by simp only [List.nil_append]; omega) (.nil _ _) (ValidLex_suffix _ _ _ hv3 |> fun h => by simp only [ValidLex] at h; exact h.2.2)
     (fun h => absurd h (by omega)) hn hf
@@ -747,38 +842,220 @@ end Jomini.TextReader
 namespace Jomini.TextReader
 open Jomini Jomini.TextReader.Spec
 
-/-- **`C09_text_skip_matching_close`** (see `text_skip_matching_close`): on every valid reader-safe rendering of a
-document, for every container of it, `skip_container` called right after the container's `Open` token ends exactly behind
-that container's matching close — braces and `#` inside quoted scalars, escaped quotes, braces inside comments included —:
-the tokens read afterwards are the document's tokens after the container, then a clean end at the end of the input.  Slice
-reader and every fault-free schedule with a buffer larger than the input. -/
+/-! ### the buffer a skip needs -/
+
+/-- **what the buffer must hold for "read `k` tokens, one more, skip, read `m` tokens to the end"**: three bytes for the
+skip itself (it discards what it has scanned; across a refill it carries at most a backslash and the byte behind it), what
+the `k + 1` calls in front of the skip need, and what the calls behind the skipped part — over the remaining input `after`
+— need.  Nothing inside the skipped container counts: tokens, strings and comments of any length are skipped with a
+three-byte buffer. -/
+def skipNeed (k m : Nat) (data after : Bytes) : Nat :=
+  max 3 (max (needFrom (k + 1) 0 .unknown data) (needFrom (m + 1) (data.length - after.length) .notPresent after))
+
+/-- the readers the skip theorems are about: the slice reader, or a `Read`-backed reader whose buffer holds `skipNeed`
+bytes, under a fault-free schedule (read sizes ≥ 1) -/
+def SkipStart (k m : Nat) (data after : Bytes) (r0 : Reader) : Prop :=
+  r0 = fromSlice data ∨
+  ∃ cap sched, skipNeed k m data after ≤ cap ∧ WfSched sched ∧ NoFaults sched ∧ r0 = fromReader cap sched data
+
+theorem SkipStart.rel {k m : Nat} {data after : Bytes} {r0 : Reader} (h : SkipStart k m data after r0) :
+    Rel r0 0 .unknown data ∧ Good (k + 1) r0 0 .unknown data ∧
+    (r0.cap = 0 ∨ needFrom (m + 1) (data.length - after.length) .notPresent after ≤ r0.cap) := by
+  rcases h with rfl | ⟨cap, sched, hc, hw, hnf, rfl⟩
+  · exact ⟨⟨rfl, rfl, by simp [fromSlice], by intro x hx; simp [fromSlice] at hx, fun _ => rfl⟩,
+      ⟨Or.inl rfl, by intro x hx; simp [fromSlice] at hx⟩, Or.inl rfl⟩
+  · unfold skipNeed at hc
+    have h3 : 3 ≤ cap := by omega
+    exact ⟨⟨rfl, rfl, by simp [fromReader], hw, by intro h; simp [fromReader] at h; omega⟩,
+      ⟨Or.inr ⟨by simpa [fromReader] using h3, by simp only [fromReader]; omega⟩, by simpa [fromReader] using hnf⟩,
+      Or.inr (by simp only [fromReader]; omega)⟩
+
+/-- a buffer larger than the input is large enough -/
+theorem GoodStart.skipStart {k m : Nat} {data after : Bytes} {r0 : Reader} (h : GoodStart data r0) (h2 : 2 ≤ data.length)
+    (hle : after.length ≤ data.length) : SkipStart k m data after r0 := by
+  rcases h with rfl | ⟨cap, sched, hc, hw, hnf, rfl⟩
+  · exact Or.inl rfl
+  · refine Or.inr ⟨cap, sched, ?_, hw, hnf, rfl⟩
+    unfold skipNeed
+    have h1 := needFrom_le (k + 1) 0 .unknown data
+    have h2 := needFrom_le (m + 1) (data.length - after.length) .notPresent after
+    omega
+
+/-- one token of the reference: what the later calls need is part of what all the calls need -/
+theorem needFrom_item {gt pre g : Bytes} {lx : Lexeme} {rest : List (Bytes × Lexeme)} {pos : Nat} {bom bom_s : Bom} (n : Nat)
+    (hs : Skips (pos == 0) pre 0 bom bom_s) (hv : ValidLex ((g, lx) :: rest) gt)
+    (hclash : pos = 0 → pre = [] → bom_s = .unknown → ¬∃ r', renderLex ((g, lx) :: rest) gt = 0xef :: 0xbb :: 0xbf :: r') :
+    ∃ b', needFrom n (pos + (pre.length + g.length + lx.text.length)) b' (renderLex rest gt) ≤
+      needFrom (n + 1) pos bom (pre ++ renderLex ((g, lx) :: rest) gt) := by
+  simp only [ValidLex] at hv
+  obtain ⟨hg, hlv, _⟩ := hv
+  have hall := hs.append (hg.skips (pos == 0) (0 + pre.length) bom_s)
+  have hd : pre ++ renderLex ((g, lx) :: rest) gt = (pre ++ g) ++ (lx.text ++ renderLex rest gt) := by simp [renderLex]
+  obtain ⟨b', hsp⟩ := specStep_lexeme lx hall hlv (by
+    rintro ⟨hp, hpg, hb, r', hr'⟩
+    have hpre : pre = [] := by cases pre with | nil => rfl | cons _ _ => simp at hpg
+    have hg0 : g = [] := by subst hpre; simpa using hpg
+    refine hclash (by simpa using hp) hpre hb ⟨r', ?_⟩
+    subst hg0; simpa [renderLex] using hr')
+  rw [← hd] at hsp
+  have hdrop : (pre ++ renderLex ((g, lx) :: rest) gt).drop ((pre ++ g).length + lx.text.length) = renderLex rest gt := by
+    rw [hd, ← List.append_assoc]
+    have : (pre ++ g).length + lx.text.length = (pre ++ g ++ lx.text).length := by simp; omega
+    rw [this, List.drop_left]
+  have hlen : (pre ++ g).length + lx.text.length = pre.length + g.length + lx.text.length := by simp
+  refine ⟨b', ?_⟩
+  simp only [needFrom, hsp]
+  rw [hdrop, hlen]
+  exact Nat.le_max_right _ _
+
+theorem needFrom_items (gt : Bytes) (rest : List (Bytes × Lexeme)) : ∀ (items : List (Bytes × Lexeme)) (pos : Nat) (bom : Bom) (n : Nat),
+    ValidLex (items ++ rest) gt →
+    (pos = 0 → bom = .unknown → ¬∃ r', renderLex (items ++ rest) gt = 0xef :: 0xbb :: 0xbf :: r') →
+    ∃ b', needFrom n (pos + (renderLex items []).length) b' (renderLex rest gt) ≤
+      needFrom (items.length + n) pos bom (renderLex (items ++ rest) gt) := by
+  intro items
+  induction items with
+  | nil => intro pos bom n _ _; exact ⟨bom, by simp [renderLex]⟩
+  | cons it items ih =>
+    obtain ⟨g, lx⟩ := it
+    intro pos bom n hv hclash
+    simp only [List.cons_append] at hv hclash
+    obtain ⟨b1, h1⟩ := needFrom_item (pre := []) (items.length + n) (.nil _ _) hv (fun hp _ hb => hclash hp hb)
+    have htl : 0 < lx.text.length := lexeme_text_pos (by simp only [ValidLex] at hv; exact hv.2.1)
+    obtain ⟨b2, h2⟩ := ih (pos + (([] : Bytes).length + g.length + lx.text.length)) b1 n (by simp only [ValidLex] at hv; exact hv.2.2)
+      (fun h => absurd h (by omega))
+    refine ⟨b2, ?_⟩
+    simp only [List.nil_append, List.length_nil, Nat.zero_add] at h1 h2
+    have e1 : pos + (renderLex ((g, lx) :: items) []).length = pos + (g.length + lx.text.length) + (renderLex items []).length := by
+      simp [renderLex]; omega
+    have e2 : ((g, lx) :: items).length + n = items.length + n + 1 := by simp; omega
+    rw [e1, e2, List.cons_append]
+    exact Nat.le_trans h2 h1
+
+theorem items_le_length (gt : Bytes) : ∀ (items : List (Bytes × Lexeme)), ValidLex items gt →
+    items.length ≤ (renderLex items gt).length := by
+  intro items
+  induction items with
+  | nil => intro _; simp
+  | cons it items ih =>
+    obtain ⟨g, lx⟩ := it
+    intro hv
+    simp only [ValidLex] at hv
+    have := lexeme_text_pos hv.2.1
+    have := ih hv.2.2
+    simp [renderLex]; omega
+
+/-- **`skipNeed ≤ max 3 (need data)`**: a buffer of at least three bytes that is large enough for reading the whole input
+token by token (`need`, the decidable fit predicate of C07) is large enough for skipping any part of it. -/
+theorem skipNeed_le_need (b : Bool) (items1 more : List (Bytes × Lexeme)) (gt : Bytes) (k : Nat)
+    (hv : ValidLex (items1 ++ more) gt) (hne : items1 ≠ []) (hk : k ≤ items1.length)
+    (hclash : b = false → ¬∃ r', renderLex (items1 ++ more) gt = 0xef :: 0xbb :: 0xbf :: r') :
+    skipNeed k more.length (bomBytes b ++ renderLex (items1 ++ more) gt) (renderLex more gt) ≤
+      max 3 (need (bomBytes b ++ renderLex (items1 ++ more) gt)) := by
+  obtain ⟨it, items1', rfl⟩ : ∃ it items1', items1 = it :: items1' := by
+    cases items1 with
+    | nil => exact absurd rfl hne
+    | cons it t => exact ⟨it, t, rfl⟩
+  obtain ⟨g, lx⟩ := it
+  simp only [List.cons_append, List.length_cons] at hv hclash hk ⊢
+  have hil := items_le_length gt ((g, lx) :: (items1' ++ more)) hv
+  simp only [List.length_cons, List.length_append] at hil
+  obtain ⟨data, hdata⟩ : ∃ data, data = bomBytes b ++ renderLex ((g, lx) :: (items1' ++ more)) gt := ⟨_, rfl⟩
+  rw [← hdata]
+  have hdl : (renderLex ((g, lx) :: (items1' ++ more)) gt).length ≤ data.length := by rw [hdata]; simp
+  have hfu : items1'.length + (more.length + 1) + 1 ≤ fuelFor data := by simp [fuelFor]; omega
+  unfold skipNeed need
+  have h1 := needFrom_mono (k + 1) (fuelFor data) 0 .unknown data (by omega)
+  -- the first item, behind the BOM if any; then the others
+  have hs0 : ∃ bs, Skips ((0 : Nat) == 0) (bomBytes b) 0 .unknown bs := by
+    cases b with
+    | true => exact ⟨.present, .bom rfl (.nil _ _)⟩
+    | false => exact ⟨.unknown, .nil _ _⟩
+  obtain ⟨bs, hs0⟩ := hs0
+  obtain ⟨b1, hstep1⟩ := needFrom_item (pos := 0) (items1'.length + (more.length + 1)) hs0 hv (by
+    intro _ hb0 _
+    cases b with
+    | true => simp [bomBytes] at hb0
+    | false => exact hclash rfl)
+  rw [← hdata] at hstep1
+  have htl : 0 < lx.text.length := lexeme_text_pos (by simp only [ValidLex] at hv; exact hv.2.1)
+  obtain ⟨b2, hstep2⟩ := needFrom_items gt more items1' (0 + ((bomBytes b).length + g.length + lx.text.length)) b1 (more.length + 1)
+    (by simp only [ValidLex] at hv; exact hv.2.2) (fun h => absurd h (by omega))
+  have hpos : data.length - (renderLex more gt).length =
+      0 + ((bomBytes b).length + g.length + lx.text.length) + (renderLex items1' []).length := by
+    rw [hdata]
+    simp only [renderLex, renderLex_append, List.length_append]
+    have := renderLex_nil_length items1' (renderLex more gt)
+    omega
+  rw [hpos, needFrom_bom _ _ .notPresent b2 _ (by omega)]
+  have h2 := needFrom_mono (items1'.length + (more.length + 1) + 1) (fuelFor data) 0 .unknown data hfu
+  omega
+
+/-- **`C09_text_skip_matching_close`**: on every valid reader-safe rendering of a document, for every container of it,
+`skip_container` called right after the container's `Open` token ends exactly behind that container's matching close —
+braces and `#` inside quoted scalars, escaped quotes, braces inside comments included —: the tokens read afterwards are the
+document's tokens after the container, then a clean end at the end of the input.  For the slice reader and for EVERY
+fault-free read schedule and every buffer capacity that holds `skipNeed`: three bytes, the tokens in front of the container
+and the tokens behind it — the container's content, however long its tokens, strings and comments are, needs no room
+(`C09_text_skipNeed_le_need`: in particular every capacity ≥ 3 with `need data ≤ cap`, and every capacity larger than the
+input). -/
 theorem C09_text_skip_matching_close (doc ms : DMembers) (g gc gt : Bytes) (b : Bool) (pre more : List (Bytes × Lexeme))
     (r0 : Reader) (f n : Nat)
     (hocc : itemsM doc = pre ++ itemsV (.cont g ms gc) ++ more)
     (hv : ValidM doc gt) (hgt : EndGap gt) (hsafe : ∀ it ∈ itemsM ms, skipSafeTok it.2.tok = true)
     (hclash : b = false → ¬∃ r', renderM doc ++ gt = 0xef :: 0xbb :: 0xbf :: r')
-    (hr0 : GoodStart (bomBytes b ++ (renderM doc ++ gt)) r0)
+    (hr0 : SkipStart pre.length more.length (bomBytes b ++ (renderM doc ++ gt)) (renderLex more gt) r0)
     (hf : 2 * (bomBytes b ++ (renderM doc ++ gt)).length + 4 ≤ f) (hn : more.length + 1 ≤ n) :
     ∃ run, skipAt f n pre.length r0 = some (pre.map (fun x => x.2.tok), run) ∧
       run.toks = more.map (fun x => x.2.tok) ∧ run.out = .end_ ∧
-      run.final.position = (bomBytes b ++ (renderM doc ++ gt)).length :=
-  text_skip_matching_close doc ms g gc gt b pre more r0 f n hocc hv hgt hsafe hclash hr0 hf hn
+      run.final.position = (bomBytes b ++ (renderM doc ++ gt)).length := by
+  have hr : renderLex (itemsM doc) gt = renderM doc ++ gt := renderLex_itemsM doc gt
+  have hvl : ValidLex (itemsM doc) gt := by
+    have := validLex_itemsM doc [] gt (by simpa [renderLex] using hv) (by simpa [ValidLex] using hgt)
+    simpa using this
+  have hitems : itemsM doc = pre ++ (g, Lexeme.open_) :: (itemsM ms ++ (gc, Lexeme.close) :: more) := by
+    rw [hocc]; simp [itemsV]
+  rw [← hr, hitems] at hr0 hf hclash ⊢
+  rw [hitems] at hvl
+  obtain ⟨hrel, hgood, hafter⟩ := hr0.rel
+  exact skipAt_items b pre more g gc gt ms r0 f n hvl hsafe hclash hrel hgood hafter hf hn
 
 /-- every container that occurs in the document has such a decomposition (so the theorem applies to all of them) -/
 theorem C09_text_container_segment {doc ms : DMembers} {g gc : Bytes} (h : InM (.cont g ms gc) doc) :
     ∃ pre more, itemsM doc = pre ++ itemsV (.cont g ms gc) ++ more := h.segment
 
+/-- **`C09_text_skipNeed_le_need`**: for a rendered document split as `items1 ++ more` (the skip happens inside `items1`,
+`k ≤ |items1|` tokens are read before it), `skipNeed ≤ max 3 (need data)`: every buffer of at least three bytes that fits
+the input for reading (C07's `need`) fits it for skipping; and `need data ≤ |data| + 1`, so does every buffer larger than
+the input. -/
+theorem C09_text_skipNeed_le_need (doc : DMembers) (gt : Bytes) (b : Bool) (items1 more : List (Bytes × Lexeme)) (k : Nat)
+    (hocc : itemsM doc = items1 ++ more) (hne : items1 ≠ []) (hk : k ≤ items1.length)
+    (hv : ValidM doc gt) (hgt : EndGap gt)
+    (hclash : b = false → ¬∃ r', renderM doc ++ gt = 0xef :: 0xbb :: 0xbf :: r') :
+    skipNeed k more.length (bomBytes b ++ (renderM doc ++ gt)) (renderLex more gt) ≤
+      max 3 (need (bomBytes b ++ (renderM doc ++ gt))) ∧
+    need (bomBytes b ++ (renderM doc ++ gt)) ≤ (bomBytes b ++ (renderM doc ++ gt)).length + 1 := by
+  have hr : renderLex (itemsM doc) gt = renderM doc ++ gt := renderLex_itemsM doc gt
+  have hvl : ValidLex (itemsM doc) gt := by
+    have := validLex_itemsM doc [] gt (by simpa [renderLex] using hv) (by simpa [ValidLex] using hgt)
+    simpa using this
+  refine ⟨?_, by unfold need; have := needFrom_le (fuelFor (bomBytes b ++ (renderM doc ++ gt))) 0 .unknown (bomBytes b ++ (renderM doc ++ gt)); omega⟩
+  rw [← hr, hocc] at hclash ⊢
+  rw [hocc] at hvl
+  exact skipNeed_le_need b items1 more gt k hvl hne hk hclash
+
 /-- **`C09_text_skipu_matching_close`**: `skip_unquoted_value` called right after an unquoted header scalar that is
 followed — with ONLY BLANK bytes (space, tab, LF, CR, `;`) in between, the exact condition under which the code skips —
 by a container: it ends exactly behind the container's matching close; the tokens read afterwards are the document's tokens
-after the container.  (With a `#` comment in the gap it does not: `C09_known_skipu_comment_breaks`.) -/
+after the container.  Slice reader, and every fault-free schedule and buffer capacity that holds `skipNeed` (see
+`C09_text_skip_matching_close`).  (With a `#` comment in the gap it does not: `C09_known_skipu_comment_breaks`.) -/
 theorem C09_text_skipu_matching_close (doc ms : DMembers) (g0 hb g gc gt : Bytes) (b : Bool) (pre more : List (Bytes × Lexeme))
     (r0 : Reader) (f n : Nat)
     (hocc : itemsM doc = pre ++ (g0, Lexeme.scalar false hb) :: (itemsV (.cont g ms gc) ++ more))
     (hblank : ∀ x ∈ g, isBlank x = true)
     (hv : ValidM doc gt) (hgt : EndGap gt) (hsafe : ∀ it ∈ itemsM ms, skipSafeTok it.2.tok = true)
     (hclash : b = false → ¬∃ r', renderM doc ++ gt = 0xef :: 0xbb :: 0xbf :: r')
-    (hr0 : GoodStart (bomBytes b ++ (renderM doc ++ gt)) r0)
+    (hr0 : SkipStart pre.length more.length (bomBytes b ++ (renderM doc ++ gt)) (renderLex more gt) r0)
     (hf : 2 * (bomBytes b ++ (renderM doc ++ gt)).length + 4 ≤ f) (hn : more.length + 1 ≤ n) :
     ∃ run, skipUAt f n pre.length r0 = some (pre.map (fun x => x.2.tok), .unquoted hb, run) ∧
       run.toks = more.map (fun x => x.2.tok) ∧ run.out = .end_ ∧
@@ -791,8 +1068,20 @@ theorem C09_text_skipu_matching_close (doc ms : DMembers) (g0 hb g gc gt : Bytes
     rw [hocc]; simp [itemsV]
   rw [← hr, hitems] at hr0 hf hclash ⊢
   rw [hitems] at hvl
-  obtain ⟨hrel, hgood⟩ := hr0.rel
-  exact skipUAt_items b pre more g0 hb g gc gt ms r0 f n hvl hblank hsafe hclash hrel hgood hf hn
+  obtain ⟨hrel, hgood, hafter⟩ := hr0.rel
+  exact skipUAt_items b pre more g0 hb g gc gt ms r0 f n hvl hblank hsafe hclash hrel hgood hafter hf hn
+
+-- the hypotheses are satisfiable with a small buffer: `a={ "long string here" } b`: three bytes suffice for the skip,
+-- although reading the quoted scalar needs 17
+example : skipNeed 2 1 [97, 61, 123, 32, 34, 108, 111, 110, 103, 32, 115, 116, 114, 105, 110, 103, 32, 104, 101, 114, 101, 34, 32, 125, 32, 98, 10]
+    [32, 98, 10] = 3 ∧
+    need [97, 61, 123, 32, 34, 108, 111, 110, 103, 32, 115, 116, 114, 105, 110, 103, 32, 104, 101, 114, 101, 34, 32, 125, 32, 98, 10] = 17 := by
+  decide +kernel
+-- the run with a 5-byte buffer, one byte per read
+example : (skipAt 80 10 2 (fromReader 5 [.repeat_ 1]
+    [97, 61, 123, 32, 34, 108, 111, 110, 103, 32, 115, 116, 114, 105, 110, 103, 32, 104, 101, 114, 101, 34, 32, 125, 32, 98, 10])).map
+      (fun p => (p.1, p.2.toks, p.2.out)) = some ([.unquoted [97], .op .eq], [.unquoted [98]], .end_) := by
+  decide +kernel
 
 /-- **the recorded finding `skipu-comment-before-brace`, on the model.**  Input `a=rgb #k\\n{ 1 } b`: after the tokens `a`,
 `=`, `rgb`, `skip_unquoted_value` returns `Ok` but has NOT skipped the container — the next token is `Open`, whereas
